@@ -546,6 +546,44 @@ def run(ctx, col: Collector):
                         file=new.file)
     guarded(col, 'C12-static', 'entry-points', static_and_funnel)
 
+    def newlines():
+        # the file routes read in text mode (line ends arrive as `\n`), the string routes get the text as it is: a document with `\r\n` line ends gives the same
+        # database on both only if a `\r` before a line break is skipped wherever a line break is accepted
+        from ..core import acquire_grammar
+        from .. import gtools as gt
+        gm = acquire_grammar(ctx, col, 'C12-grammar')
+        n = 0
+        seen = set()
+        for g in gm.reachable():
+            if g.uid in seen:
+                continue
+            seen.add(g.uid)
+            if g.kind == 'lit' and '\n' in g.a.get('text', '') and g.a['text'].strip('\n') == '':
+                n += 1
+                cons = f'line-break@{g.module.split(".")[-1]}:{g.line}'
+                ok_ = '\r' in (g.ws or '') and g.skip_ws
+                if any(o.construct == cons for o in col.obs):
+                    continue
+                col.check(ok_, 'C12-newline', cons, 'a carriage return before the line break is skipped as white space',
+                          f'the line-break literal at {g.file}:{g.line} does not skip `\\r` (white space {g.ws!r}, skipping {g.skip_ws}): a document with CRLF line ends passed as '
+                          f'a string fails (or parses differently) while the same document read from a file parses', file=g.file)
+            if g.kind == 'regex':
+                rs = gt.regex_skipper(g.a.get('pattern', ''), g.a.get('flags', 0) or 0)
+                if rs is None or not rs['nl']:
+                    continue
+                n += 1
+                cons = f'skipper-regex@{g.module.split(".")[-1]}:{g.var or g.line}'
+                if any(o.construct == cons for o in col.obs):
+                    continue
+                if rs['unbounded'] and rs['blank'] and not rs['cr-in-loop']:
+                    col.bad('C12-newline', cons, f'the skipper {g.a.get("pattern")!r} ({g.file}:{g.line}) repeats over line breaks and passes spaces and tabs itself but not `\\r`: after '
+                            f'its first line break a `\\r\\n` is no longer skipped, so a CRLF document passed as a string fails where the same document read from a file '
+                            f'(universal newlines) parses', file=g.file)
+                else:
+                    col.ok('C12-newline', cons, 'the regular-expression skipper passes `\\r` wherever it passes other blanks (or leaves blanks to pyparsing)', file=g.file)
+        col.floor('C12-newline', 'line-break tokens', n, 1)
+    guarded(col, 'C12-newline', 'newlines', newlines)
+
 
 def _exc_name(e: ast.AST) -> str:
     if isinstance(e, ast.Call):
